@@ -110,6 +110,17 @@ def gen(rng, tier):
             dense["args"]["bias"] = np.ones(4, dtype="float32")
         seq = [conv, dense] + ([leaf(rng, "Flatten")] if rng.random() < 0.4 else [])
         cases.append({"kind": "seq", "recipes": [V.enc_recipe(x) for x in seq], "conv": rng.choice(["varargs", "list", "tuple"])})
+    # end points whose type is a type DICTIONARY holding a tuple / list / array (parse_shape_argument keeps a dictionary as it is):
+    # the Input / Output that from_list adds carry the neighbour's type whatever container it is in
+    for _ in range(16 if tier == "quick" else 160):
+        box = rng.choice([tuple, list, lambda v: np.array(v, dtype=rng.choice(["int64", "int32"]))])
+        shp = rng.choice([[2, 3, 4], [5], [3, 2]])
+        first = rng.choice([{"k": "Flatten", "args": {"input_type": {"input": box(shp)}, "start_dim": 0, "end_dim": -1}},
+                            {"k": "Input", "args": {"input_type": {"input": box(shp)}}},
+                            {"k": "Output", "args": {"output_type": {"output": box(shp)}}}])
+        mid = [leaf(rng, rng.choice(["Scale", "LIF", "Linear"])) for _ in range(rng.randint(0, 2))]
+        seq = rng.choice([[first], [first] + mid, mid + [first] if first["k"] != "Input" else [first] + mid])
+        cases.append({"kind": "seq", "recipes": [V.enc_recipe(x) for x in seq], "conv": rng.choice(["varargs", "list", "tuple"])})
     cases.append({"kind": "seq", "recipes": [], "conv": "varargs"})
     cases.append({"kind": "seq", "recipes": [], "conv": "list"})
     return cases
